@@ -58,3 +58,38 @@ def check_and_replay(res, name, c, ov, depth_all=3, walks=2000, walk_len=25, own
 def switch_run(res, name, c, ov, expect):
     res.model_check('DispatcherMC', name, c, invariants=INVARIANTS, properties=PROPERTIES, overrides=ov,
                     expect_violation=expect, count=False)
+
+
+TRACE_CONSTS = {'H': '{"h1","h2","h3","h4","h5","h6"}', 'Ev': '{"a","b","c"}', 'SubsChoices': '{}', 'BehChoices': '{}',
+                'MaxQ': 1000, 'MaxEid': 1000000, 'WithClear': 'TRUE', 'Ghosts': 'TRUE',
+                'ReleasePopsBeforeDeliver': 'TRUE', 'DispatchSkipsDead': 'TRUE'}
+TRACE_INV = ['TypeOK', 'RegisteredAreAlive', 'NoBad', 'OnlySubscribersCalled', 'QueueInOrder', 'QueuedNotDelivered', 'DrainedOnReturn']
+
+
+def trace_validate(res, n_traces, n_calls, what='random-histories'):
+    """Pipeline B: long random histories over 6 handlers / 3 events executed on the real dispatcher, recorded,
+    and checked by TLC against DispatcherTrace.tla with every invariant of Dispatcher.tla on."""
+    import copy
+    from .. import tracecheck, record_dispatcher as rd
+    desper = common.import_desper()
+    traces = rd.record(desper, res.seed, n_traces, n_calls)
+    rej = tracecheck.validate(res, 'DispatcherTrace', what, traces, TRACE_CONSTS, invariants=TRACE_INV)
+    res.traces += len(traces) - len(rej)
+    res.cov.setdefault('trace_validation', {})[what] = {'traces': len(traces), 'events': sum(len(t['events']) for t in traces),
+                                                        'accepted': len(traces) - len(rej), 'rejected': len(rej)}
+    for idx, at in rej[:5]:
+        t = traces[idx] if idx >= 0 else None
+        res.violation('recorded execution not explained by Dispatcher.tla: trace %d, matched %s events' % (idx, at),
+                      {'trace': t, 'matched_events': at})
+    if traces:
+        res.sample({'recorded_trace_header': traces[0]['header'], 'first_events': traces[0]['events'][:4]})
+    # binding self-test: one corrupted observation must be rejected exactly there
+    bad = copy.deepcopy(traces[:1])
+    k = next((i for i, e in enumerate(bad[0]['events']) if e['log']), None)
+    if k is not None:
+        bad[0]['events'][k]['log'] = bad[0]['events'][k]['log'][:-1]
+        r2 = tracecheck.validate(res, 'DispatcherTrace', what + '-corrupted', bad, TRACE_CONSTS)
+        ok = len(r2) == 1 and r2[0][1] == k
+        res.cov['trace_validation'][what]['corrupted_trace_rejected_at_event'] = r2[0][1] if r2 else None
+        if not ok:
+            raise common.MachineryError('trace validation accepted a corrupted trace (or rejected it at the wrong event): %r, corrupted event %d' % (r2, k))
